@@ -452,6 +452,8 @@ def type_invariant(v: V, depth: int = 0) -> list:
         return [Val.is_s(t)]
     if k in ('ref', 'list', 'dict', 'set'):
         return [Val.is_ref(t)]
+    if k in ('mat', 'vec'):
+        return [z3.Not(Val.is_none(t))]
     if k == 'opt':
         inner = V(t, v.ty.args[0])
         fs = type_invariant(inner, depth + 1)
